@@ -26,7 +26,7 @@ DEFAULT_PROFILE = dict(
     subscript_whole_array_results=True, raise_=True, nested_calls=True,
     persistent_arrays=True, name_pool="plain", zero_trip=True, negative_consts=True,
     dead_code=True, cond_in_call_args=True, bare_power=True, ne_operator=True,
-    pow_of_pow=True, loop_bound_vars=True, fresh_names=False, lookups=False, complex_vars=False, assign_all_state=False, time_advance=True, force_phases=None, extra_kinds=(), zero_arg_calls=True, builtin_set=None, yield_uvec_only=False, matmul_only=False, yield_call_free=False, minmax_loop_counter=True, builtin_kwargs=True, uvfn_boost=False, kw_reverse=True, triangular=True, recall=True, int_reassign=True, acc_loops=True, guarded_partial=True, split_calls=True,
+    pow_of_pow=True, loop_bound_vars=True, fresh_names=False, lookups=False, complex_vars=False, assign_all_state=False, time_advance=True, force_phases=None, extra_kinds=(), zero_arg_calls=True, builtin_set=None, yield_uvec_only=False, matmul_only=False, yield_call_free=False, minmax_loop_counter=True, builtin_kwargs=True, uvfn_boost=False, kw_reverse=True, triangular=True, recall=True, int_reassign=True, acc_loops=True, guarded_partial=True, split_calls=True, dt_change=True,
     real_temps=None, uvec_temps=None, arr_temps=None, flag_temps=None, int_temps=None,
 )
 
@@ -1000,6 +1000,12 @@ class Gen:
         return ops
 
     def op_time_advance(self):
+        if self.p["dt_change"] and self.chance(25):
+            # step-size control: the step size is a persistent variable like any other
+            self.features.add("dt_change")
+            if self.chance(50):
+                return [["assign", "<dt>", None, normal(["prod", V("<dt>"), C(self.choice([0.5, 2, 0.25]))]), []]]
+            return [["assign", "<dt>", None, ["quot", V("<dt>"), C(self.choice([2, 4]))], []]]
         return [["assign", "<t>", None, normal(["sum", V("<t>"), V("<dt>")]), []]]
 
     def op_if(self, depth, budget):
